@@ -16,11 +16,11 @@ ASSUMPTIONS = ["virtual time: order is the order of events in the kernel's log (
                "producible by a tape)", "group tasks have no command/step of their own and are only checked as dependencies"]
 ESSENTIAL = ["two_paths", "shortcut_dep_listed_after_sibling", "shortcut_dep_listed_before_sibling",
              "sync_op_in_closure", "cached_dep", "failed_dep", "inflight>=2", "completion_reordered"]
-TECHNIQUE = "property-based testing (Hypothesis) of the real CLI under a virtual kernel; interval-order oracle over the event log vs. model transitive deps"
+TECHNIQUE = "property-based testing (Hypothesis) of the real CLI under a virtual kernel; interval-order oracle over the event log vs. model transitive deps; one case in 16 runs real task processes (order read from one O_APPEND log, no clock)"
 LEVEL_TEXT = ("Randomised search over graphs x listing orders x kinds x cache x jobs x completion orders; each case runs the "
               "real planner/executor and is judged by an interval-order predicate computed from an independent model of "
               "the dependency relation. Search, not proof.")
-LEVEL_NOTE = "Trusted: vf/kernel.py process emulation and event ordering; model.closure/transdeps."
+LEVEL_NOTE = "Trusted: (real-process share: vf/reallayer.py, the serialisation of O_APPEND writes) vf/kernel.py process emulation and event ordering; model.closure/transdeps."
 
 
 def strategy(tier):
